@@ -42,9 +42,10 @@ use std::path::{Path, PathBuf};
 use std::sync::atomic::{AtomicU64, Ordering};
 use std::sync::{Arc, Mutex};
 
-/// The blob universe: the empty blob, a one-byte blob, a multi-byte blob.
-pub const BLOBS: [&[u8]; 3] = [b"", b"a", b"echo-cas blob #2"];
-pub const NB: u8 = 3;
+/// The blob universe: the empty blob, two DIFFERENT one-byte blobs (equal length, so a
+/// length-only comparison cannot tell them apart) and a multi-byte blob.
+pub const BLOBS: [&[u8]; 4] = [b"", b"a", b"b", b"echo-cas blob #2"];
+pub const NB: u8 = 4;
 pub const NC: u8 = 3;
 
 fn h(i: u8) -> BlobHash {
